@@ -71,6 +71,14 @@ fn try_redeem(prog: &[u8], wit: &[u8], fails: &mut Vec<String>) {
     }
 }
 
+/// the tree unfolding of an expression as text: kind of every node (with hidden roots, words, jets, fail entropy)
+fn shape<M: crate::node::Marker>(n: &crate::node::Node<M>) -> String {
+    let kind = format!("{:?}", n.inner().as_ref().map(|_| ()).map_disconnect(|_| ()).map_witness(|_| ()));
+    let l = n.left_child().map(|c| shape(c)).unwrap_or_default();
+    let r = n.right_child().map(|c| shape(c)).unwrap_or_default();
+    format!("{}[{}|{}]", kind, l, r)
+}
+
 /// encode then decode: expressions built with the constructors (every combinator, a fail node with non-symmetric
 /// entropy, words, a jet, hidden branches) must decode to an expression with the same root and the same bytes
 fn encode_then_decode(fails: &mut Vec<String>) {
@@ -117,12 +125,37 @@ fn encode_then_decode(fails: &mut Vec<String>) {
                 }
             }
         }
+        // a hidden branch whose root EQUALS the root of a real node of the same program (emitted before or after it):
+        // hidden nodes are shared among themselves by root, never with real nodes (seed C01-5)
+        let n_plain = exprs.len();
+        for i in 0..n_plain {
+            let (n, e) = (exprs[i].0.clone(), Arc::clone(&exprs[i].1));
+            let hidden_l = N::assertl(&N::unit(&ctx), e.cmr());
+            let hidden_r = N::assertr(e.cmr(), &N::unit(&ctx));
+            for (tag, h) in [("assertl unit", hidden_l), ("assertr", hidden_r)] {
+                let h = match h {
+                    Ok(h) => h,
+                    Err(_) => continue,
+                };
+                if let Ok(x) = N::pair(&e, &h) {
+                    exprs.push((format!("pair ({}) ({} #root-of-the-left-child)", n, tag), x));
+                }
+                if let Ok(x) = N::pair(&h, &e) {
+                    exprs.push((format!("pair ({} #root-of-the-right-child) ({})", tag, n), x));
+                }
+                if let Ok(x) = N::comp(&e, &h) {
+                    exprs.push((format!("comp ({}) ({} #root-of-the-left-child)", n, tag), x));
+                }
+            }
+        }
         for (name, e) in exprs {
             let bytes = e.to_vec_without_witness();
             types::Context::with_context(|ctx2| match ConstructNode::decode::<_, Core>(&ctx2, BitIter::from(&bytes[..])) {
                 Ok(back) => {
                     if back.cmr() != e.cmr() {
                         fails.push(format!("expression `{}` encodes as {:02x?}, which decodes to an expression with root {} instead of {}", name, bytes, back.cmr(), e.cmr()));
+                    } else if shape(&back) != shape(&e) {
+                        fails.push(format!("expression `{}` encodes as {:02x?}, which decodes to another expression: {} instead of {}", name, bytes, shape(&back), shape(&e)));
                     } else if back.to_vec_without_witness() != bytes {
                         fails.push(format!("expression `{}` encodes as {:02x?} but re-encodes as {:02x?} after decoding", name, bytes, back.to_vec_without_witness()));
                     }
@@ -134,6 +167,52 @@ fn encode_then_decode(fails: &mut Vec<String>) {
             }
         }
     });
+}
+
+/// commitment-time programs in which a hidden branch's root EQUALS the root of a real node emitted earlier (nodes of
+/// typed programs have sharing ids, so the encoder's tracker sees both keys): the hidden branch must stay a hidden
+/// node - same root, same shape, same bytes after decoding (seed C01-5)
+fn hidden_root_equals_real_root(fails: &mut Vec<String>) {
+    for k in 0..8usize {
+        let res = std::panic::catch_unwind(move || {
+            types::Context::with_context(|ctx| -> Option<String> {
+                type N<'b> = Arc<ConstructNode<'b>>;
+                let u = N::unit(&ctx);
+                let w = N::const_word(&ctx, Word::u8(7));
+                let a = match k % 4 {
+                    0 => N::injl(&u),
+                    1 => N::injr(&u),
+                    2 => N::injl(&w),
+                    _ => N::injr(&w),
+                };
+                let input = N::pair(&a, &N::unit(&ctx)).ok()?;
+                let h = if k < 4 { N::assertl(&N::unit(&ctx), input.cmr()) } else { N::assertr(input.cmr(), &N::unit(&ctx)) }.ok()?;
+                let main = N::comp(&input, &h).ok()?;
+                let commit = main.finalize_types().ok()?;
+                let bytes = commit.to_vec_without_witness();
+                let name = format!("comp (pair (inj{} {}) unit) (assert{} with the hidden root of the left child)", if k % 2 == 0 { "l" } else { "r" }, if k % 4 < 2 { "unit" } else { "word8" }, if k < 4 { "l" } else { "r" });
+                match CommitNode::decode::<_, Core>(BitIter::from(&bytes[..])) {
+                    Ok(back) => {
+                        if back.cmr() != commit.cmr() {
+                            Some(format!("program `{}` encodes as {:02x?}, which decodes to a program with root {} instead of {}", name, bytes, back.cmr(), commit.cmr()))
+                        } else if shape(&back) != shape(&commit) {
+                            Some(format!("program `{}` encodes as {:02x?}, which decodes to another program: {} instead of {}", name, bytes, shape(&back), shape(&commit)))
+                        } else if back.to_vec_without_witness() != bytes {
+                            Some(format!("program `{}` encodes as {:02x?} but re-encodes as {:02x?}", name, bytes, back.to_vec_without_witness()))
+                        } else {
+                            None
+                        }
+                    }
+                    Err(err) => Some(format!("program `{}` encodes as {:02x?}, which does not decode: {}", name, bytes, err)),
+                }
+            })
+        });
+        match res {
+            Err(_) => fails.push(format!("hidden-root-equals-real-root program #{}: encoding or decoding PANICS", k)),
+            Ok(Some(f)) => fails.push(f),
+            Ok(None) => {}
+        }
+    }
 }
 
 /// redemption programs with witnesses of several inferred types: serialise, decode, compare everything. Every program is
@@ -227,6 +306,7 @@ fn c02_codec_replay() {
     std::panic::set_hook(Box::new(|_| {}));
     let mut fails = Vec::new();
     encode_then_decode(&mut fails);
+    hidden_root_equals_real_root(&mut fails);
     redeem_round_trips(&mut fails);
     for a in 0u32..256 {
         try_one(&[a as u8], &mut fails);
